@@ -117,7 +117,8 @@ def handle : Sexp → Option Sexp
       let G ← decCFG g
       let fl ← allSome Sexp.string? flags
       let Sy : Syms := { prims := ← allSome decSym prims, vars := ← allSome decSym vars,
-                         fixF3 := fl.contains "C05-F3", fixF4 := fl.contains "C05-F4" }
+                         fixF3 := fl.contains "C05-F3", fixF4 := fl.contains "C05-F4",
+                         fixF2 := fl.contains "C05-F2" }
       let cs ← allSome Sexp.string? cs
       let ts ← allSome decProg progs
       let parsed := cs.map (fun c => parse Sy c.toList)
@@ -138,7 +139,8 @@ def handle : Sexp → Option Sexp
       let G ← decCFG g
       let fl ← allSome Sexp.string? flags
       let Sy : Syms := { prims := ← allSome decSym prims, vars := ← allSome decSym vars,
-                         fixF3 := fl.contains "C05-F3", fixF4 := fl.contains "C05-F4" }
+                         fixF3 := fl.contains "C05-F3", fixF4 := fl.contains "C05-F4",
+                         fixF2 := fl.contains "C05-F2" }
       let cs ← allSome Sexp.string? cs
       let ts ← allSome decProg progs
       let parsed := cs.map (fun c => parse Sy c.toList)
